@@ -16,27 +16,29 @@
 package main
 
 import (
+	"fmt"
 	"net"
 	"strings"
 
 	"github.com/hashicorp/consul/agent/netutil"
 	"github.com/hashicorp/consul/internal/verifharness/hx"
+	"github.com/hashicorp/consul/internal/verifharness/storex"
 )
 
 // History runs one generated history against a fresh FSM.
 type History struct {
 	Run    *hx.Run
 	W      *World
+	Ops    []*Op
 	Lines  []string
-	Descs  []string
 	Last   *Snap
 	nontrv bool
 	mon    *Monitor
+	sigs   map[string]bool // monitor signatures raised in this history
 }
 
 func NewHistory(run *hx.Run) *History {
-	h := &History{Run: run, W: NewWorld()}
-	h.mon = NewMonitor(run)
+	h := &History{Run: run, W: NewWorld(), mon: NewMonitor(), sigs: map[string]bool{}}
 	run.Line("reset", "ok")
 	h.Lines = append(h.Lines, "reset")
 	h.Last = h.W.Observe()
@@ -55,6 +57,11 @@ func resClass(res string) string {
 	return res
 }
 
+func unclassified(res string) bool {
+	return strings.HasPrefix(res, "panic(") || strings.Contains(res, "unmapped(") || strings.HasPrefix(res, "unexpected(") ||
+		strings.HasPrefix(res, "err:cfg-")
+}
+
 // Step executes one operation, prints op + dump lines, runs the monitors.
 func (h *History) Step(op *Op) string {
 	line := op.Line()
@@ -64,16 +71,116 @@ func (h *History) Step(op *Op) string {
 	h.Run.Line(line, res)
 	h.Run.Line("dump", after.Dump())
 	h.Lines = append(h.Lines, line)
-	h.Descs = append(h.Descs, op.Short())
-	replay := append([]string(nil), h.Lines...)
-	if strings.HasPrefix(res, "panic(") || strings.Contains(res, "unmapped(") || strings.HasPrefix(res, "unexpected(") ||
-		strings.HasPrefix(res, "err:cfg-") {
-		h.Run.Violate("harness:unclassified-answer:"+op.Kind, "the implementation answered "+res+" to "+op.Short(), replay)
+	h.Ops = append(h.Ops, op)
+	if unclassified(res) {
+		h.Run.Violate("harness:unclassified-answer:"+op.Kind, "the implementation answered "+res+" to "+op.Short(), append([]string(nil), h.Lines...))
 	}
-	h.mon.Check(h.W, before, after, op, res, replay, h.Descs)
+	for _, f := range h.mon.Check(h.W, before, after, op, res) {
+		h.report(f)
+	}
 	h.branchTags(before, after, op, res)
 	h.Last = after
 	return res
+}
+
+// replayFindings runs a history silently (no protocol lines) and returns the monitor findings by signature.
+func replayFindings(ops []*Op) map[string]finding {
+	w, m := NewWorld(), NewMonitor()
+	last := w.Observe()
+	out := map[string]finding{}
+	for _, op := range ops {
+		res := w.Exec(op)
+		after := w.Observe()
+		for _, f := range m.Check(w, last, after, op, res) {
+			if _, ok := out[f.sig]; !ok {
+				out[f.sig] = f
+			}
+		}
+		last = after
+	}
+	return out
+}
+
+var shrunk = map[string]bool{}
+
+// shrink minimises a failing history for one signature: delta debugging over the operations, then
+// simplification of the surviving operations (checks, upstreams, transaction members).
+func shrink(ops []*Op, sig string) []*Op {
+	has := func(c []*Op) bool { _, ok := replayFindings(c)[sig]; return ok }
+	if !has(ops) {
+		return ops
+	}
+	n := 2
+	for len(ops) >= 2 {
+		chunk := (len(ops) + n - 1) / n
+		reduced := false
+		for i := 0; i < len(ops); i += chunk {
+			j := min(i+chunk, len(ops))
+			cand := append(append([]*Op(nil), ops[:i]...), ops[j:]...)
+			if len(cand) > 0 && has(cand) {
+				ops, reduced = cand, true
+				n = max(n-1, 2)
+				break
+			}
+		}
+		if !reduced {
+			if n >= len(ops) {
+				break
+			}
+			n = min(n*2, len(ops))
+		}
+	}
+	// payload simplification
+	try := func(i int, mod func(o *Op)) {
+		c := *ops[i]
+		mod(&c)
+		cand := append([]*Op(nil), ops...)
+		cand[i] = &c
+		if has(cand) {
+			ops = cand
+		}
+	}
+	for i := range ops {
+		for k := len(ops[i].Checks) - 1; k >= 0; k-- {
+			k := k
+			try(i, func(o *Op) { o.Checks = append(append([]storex.ChkArg(nil), o.Checks[:k]...), o.Checks[k+1:]...) })
+		}
+		for k := len(ops[i].Txn) - 1; k >= 0 && len(ops[i].Txn) > 1; k-- {
+			k := k
+			try(i, func(o *Op) {
+				if k < len(o.Txn) && len(o.Txn) > 1 {
+					o.Txn = append(append([]TxnArg(nil), o.Txn[:k]...), o.Txn[k+1:]...)
+				}
+			})
+		}
+		if ops[i].Svc != nil {
+			try(i, func(o *Op) { s := *o.Svc; s.Ups = nil; o.Svc = &s })
+			try(i, func(o *Op) { s := *o.Svc; s.Weights = false; o.Svc = &s })
+			try(i, func(o *Op) { o.Svc = nil })
+		}
+		try(i, func(o *Op) { o.ViaFSM = false })
+	}
+	return ops
+}
+
+func (h *History) report(f finding) {
+	h.sigs[f.sig] = true
+	ops := append([]*Op(nil), h.Ops...)
+	if !shrunk[f.sig] {
+		shrunk[f.sig] = true
+		ops = shrink(ops, f.sig)
+		if g, ok := replayFindings(ops)[f.sig]; ok {
+			f = g
+		}
+		h.Run.Tag("shrunk-witness-ops:" + fmt.Sprint(min(len(ops), 9)))
+	}
+	lines := []string{"reset"}
+	var story []string
+	for _, o := range ops {
+		lines = append(lines, o.Line())
+		story = append(story, o.Short())
+	}
+	h.Run.Violate(f.sig, f.desc+" — witness: "+strings.Join(story, "; "), lines)
 }
 
 func (h *History) Finish() {
@@ -109,7 +216,11 @@ func randomHistories(run *hx.Run, n, maxOps int) {
 			g.Last = h.Last
 		}
 		if i < 3 {
-			run.Sample(map[string]any{"profile": p.Name, "ops": h.Descs})
+			var descs []string
+			for _, o := range h.Ops {
+				descs = append(descs, o.Short())
+			}
+			run.Sample(map[string]any{"profile": p.Name, "ops": descs})
 		}
 		h.Finish()
 	}
@@ -120,6 +231,7 @@ func main() {
 	// state.addIPOffset asks netutil for the agent's bind address (IPv4: virtual IPs are 240.0.0.0 + offset)
 	netutil.SetAgentBindAddr(&net.IPAddr{IP: net.ParseIP("10.0.0.1")})
 	run.Rule = "every result line and every full dump (nodes, services with kind/connect/proxy/virtual-IP attributes, checks, coordinates, sessions, kind-service-names, service-virtual-ips, free-virtual-ips, usage, config entries, system metadata, local index rows) of the real state store after every command equals the Lean model's; the catalog invariant, the deregistration cascades and every derived view (usage, kind-service-names, virtual IPs, gateway-services, mesh-topology) recomputed from the registrations and config entries hold on the implementation"
+	runCorpus(run)
 	randomHistories(run, run.Scale(300, 4000), 30)
 	run.Finish()
 }
